@@ -101,13 +101,11 @@ pub fn c05_run(c: &mut Ctx, fam: Fam, b: &[u8], base: &(R0, usize), sched: &[Ste
         match snap {
             Snap::Header { have_ctl, var_idx, .. } => {
                 c.count(&format!("resume.header.ctl={}.var_idx={}", *have_ctl as u8, var_idx));
-                let want = *have_ctl as usize + *var_idx as usize;
-                if *pos != want {
-                    c.violation(
-                        format!("C05:v{}:state-header", f),
-                        format!("at a Pending after {} bytes the header state says control byte {} + {} length bytes", pos, have_ctl, var_idx),
-                        scase(fam, b, sched, mode),
-                    );
+                // the layout of the caller-held state is the implementation's business (the property only
+                // demands that re-creating the future from it works, which the result comparison decides):
+                // recorded as an observation of the resume points reached, not judged
+                if *pos != *have_ctl as usize + *var_idx as usize {
+                    c.count("observed.header-state-not-byte-count");
                 }
             }
             Snap::Body { total, idx, buf_len, remaining_len } => {
@@ -115,11 +113,7 @@ pub fn c05_run(c: &mut Ctx, fam: Fam, b: &[u8], base: &(R0, usize), sched: &[Ste
                 c.count(&format!("resume.body.quarter={}", bucket));
                 let hdr = total - remaining_len;
                 if *pos != hdr + idx || buf_len != remaining_len {
-                    c.violation(
-                        format!("C05:v{}:state-body", f),
-                        format!("at a Pending after {} bytes the body state says header {} + idx {} (buffer {} of {})", pos, hdr, idx, buf_len, remaining_len),
-                        scase(fam, b, sched, mode),
-                    );
+                    c.count("observed.body-state-not-byte-count");
                 }
             }
         }
@@ -956,7 +950,8 @@ pub fn c14_packet(c: &mut Ctx, r: &mut Rng, fam: Fam, rp: &RP, case: &Case) {
                 }
             }
         }
-        // a single transient Interrupted on a synchronous sink must be retried to completion
+        // a single transient Interrupted on a synchronous sink: either retried to completion (what
+        // std::io::Write::write_all does) or surfaced as an I/O error of that kind after a prefix
         if p < enc.len() - hdr {
             c.eval();
             let mut w = ScriptedWriter::new(&[]).with_fault(p, WFault::InterruptedOnce);
@@ -964,6 +959,9 @@ pub fn c14_packet(c: &mut Ctx, r: &mut Rng, fam: Fam, rp: &RP, case: &Case) {
                 Ok(None) => {}
                 Ok(Some(Ok(()))) if w.got == enc[hdr..] => {
                     c.count("interrupted-retried");
+                }
+                Ok(Some(Err(e))) if e.kind() == io::ErrorKind::Interrupted && w.got.len() <= p && enc[hdr..].starts_with(&w.got) => {
+                    c.count("interrupted-surfaced");
                 }
                 other => c.violation(
                     format!("C14:v{}:{}:stream:interrupted", f, t),
